@@ -116,7 +116,7 @@ func main() {
 			"states = execution-tree nodes, transitions = visible operations, every trace is an implementation trace")
 		r.Assume("vinst's rewrite of decode.go/scanner.go/decode_data.go preserves behaviour; sequentially consistent scheduler; races are judged on instrumented struct fields and package variables")
 		type cfg struct{ n, b, d int }
-		cfgs := []cfg{{1, 3, 2}, {2, 3, 2}, {3, 3, 2}, {12, 3, 1}}
+		cfgs := []cfg{{1, 3, 2}, {2, 3, 3}, {3, 3, 2}, {12, 3, 1}, {2, 6, 1}}
 		budget := 7 * time.Minute
 		if !r.Quick() {
 			cfgs = []cfg{{1, 3, 3}, {2, 3, 3}, {3, 3, 3}, {2, 6, 2}, {12, 3, 2}, {32, 3, 1}}
